@@ -4,7 +4,7 @@
    (generic_form_roundtrip), and the owner special case that breaks the round
    trip (a first label starting with '$'). *)
 From Coq Require Import NArith ZArith List Bool Lia ZifyN ZifyBool ZifyNat.
-From DV Require Import Base.Outcome Base.Bytes C06.Gen C06.Model C06.Proofs C06.Proofs2 C06.Tables.
+From DV Require Import Base.Outcome Base.Bytes C06.Gen C06.Model C06.Proofs C06.Proofs2 C06.Tables C06.B32.
 Import ListNotations.
 Local Open Scope N_scope.
 Ltac Zify.zify_post_hook ::= Z.div_mod_to_equations.
@@ -125,6 +125,7 @@ Definition field_shapes (v : fval) : list tshape :=
   | VQuoted b => [TQuoted (map quoted_from_octet b)]
   | VIp4 a => [TWord (map SChar (show_ip4 a))]
   | VDot => [TWord [SChar ch_dot]]
+  | VB32 b => [TWord (map SChar (b32_text b))]
   end.
 
 (* the write_token / begin_block calls of a field: an empty rest-of-entry word is an empty
@@ -151,6 +152,7 @@ Definition wf_field (k : fkind) (v : fval) : Prop :=
   | FQuoted, VQuoted b => wf_bytes b
   | FIp4, VIp4 a => wf_ip4 a
   | FDot, VDot => True
+  | FB32, VB32 b => wf_bytes b /\ b <> []
   | _, _ => False
   end.
 
@@ -168,7 +170,7 @@ Proof. rewrite map_map. apply map_ext. intros sh. reflexivity. Qed.
 
 Lemma val_sops_text v : map erase (val_sops v) = show_field v.
 Proof.
-  destruct v as [n|n|b|w|l|w|n|l|w|b|a|]; cbn [val_sops show_field]; try rewrite stoks_text; cbn [field_shapes map erase].
+  destruct v as [n|n|b|w|l|w|n|l|w|b|a| |b2]; cbn [val_sops show_field]; try rewrite stoks_text; cbn [field_shapes map erase].
   - cbn [shape_text]. rewrite plain_syms_text. reflexivity.
   - rewrite <- show_name_shape. reflexivity.
   - rewrite <- cstr_quoted_shape. reflexivity.
@@ -182,6 +184,7 @@ Proof.
   - rewrite <- cstr_quoted_shape. reflexivity.
   - cbn [shape_text]. rewrite plain_syms_text. reflexivity.
   - reflexivity.
+  - cbn [shape_text]. rewrite plain_syms_text. reflexivity.
 Qed.
 
 Lemma rtype_plain n : n < 65536 -> plain_word (show_rtype n) = true.
@@ -207,6 +210,8 @@ Proof.
   - constructor; [exact I|]. constructor; [|constructor]. apply S, plain_word_good, salt_text_plain, W.
   - constructor; [|constructor]. apply S, plain_word_good, show_dec_plain.
   - constructor; [|constructor]. apply S, plain_word_good, show_ip4_plain, W.
+  - constructor; [|constructor]. apply S, plain_word_good. destruct W as [W1 W2].
+    destruct (blob32_roundtrip b W1 W2) as (w & D & P & _). unfold b32_text. rewrite D. exact P.
   - constructor; [|constructor]. apply S. reflexivity.
   - constructor; [|constructor]. apply S, cstr_quoted_good, W.
   - destruct w as [|c w]; [repeat constructor|]. constructor; [|constructor]. apply S, plain_word_good.
@@ -271,6 +276,9 @@ Proof.
   - rewrite read_timestamp_dec by exact Wv. cbn [bind]. rewrite IH by exact Wr. reflexivity.
   - pose proof (show_ip4_plain _ Wv) as P. unfold plain_word in P. apply andb_true_iff in P as [_ P].
     rewrite plain_read_octets by exact P. cbn [bind]. rewrite parse_show_ip4 by exact Wv. cbv iota. cbn [bind]. rewrite IH by exact Wr. reflexivity.
+  - destruct Wv as [W1 W2]. destruct (blob32_roundtrip b W1 W2) as (w & D & P & C).
+    unfold b32_text. rewrite D. cbv iota. cbn [shape_tok t_syms]. rewrite plain_word_text. cbn [bind]. rewrite C. cbn [bind].
+    rewrite IH by exact Wr. reflexivity.
   - change (read_ascii (shape_tok true (TWord [SChar ch_dot]))) with (Ok [46] : outcome text). cbn [bind].
     rewrite IH by exact Wr. reflexivity.
   - rewrite read_octets_quoted by exact Wv. cbn [bind]. rewrite IH by exact Wr. reflexivity.
@@ -349,7 +357,7 @@ Proof.
   destruct fc as [v oc]. unfold field_sops. cbn [fst snd]. rewrite <- !app_assoc.
   assert (C : forall d r, balanced d (map SComment oc ++ r) = balanced d r).
   { intros d0 r. induction oc as [|c oc IHc]; [reflexivity | exact IHc]. }
-  destruct v as [n|n|b|w|l|w|n|l|w|b|a|]; cbn [val_sops];
+  destruct v as [n|n|b|w|l|w|n|l|w|b|a| |b2]; cbn [val_sops];
     try (rewrite balanced_stoks, C; reflexivity).
   - destruct w as [|c w]; [cbn [app balanced]; rewrite C; reflexivity | rewrite balanced_stoks, C; reflexivity].
   - cbn [app balanced]. rewrite balanced_stoks, C. cbn [app balanced].
@@ -362,7 +370,7 @@ Proof.
   destruct fc as [v oc]. unfold field_sops. cbn [fst snd]. rewrite <- !app_assoc.
   assert (C : forall r, expect multi true (map SComment oc ++ r) = expect multi true r).
   { intros r. induction oc as [|c oc IHc]; [reflexivity | exact IHc]. }
-  destruct v as [n|n|b|w|l|w|n|l|w|b|a|]; cbn [val_sops];
+  destruct v as [n|n|b|w|l|w|n|l|w|b|a| |b2]; cbn [val_sops];
     try (rewrite expect_stoks, C; reflexivity).
   - destruct w as [|c w]; [cbn [app expect]; rewrite C; reflexivity | rewrite expect_stoks, C; reflexivity].
   - cbn [app expect orb]. rewrite expect_stoks, C. reflexivity.
